@@ -540,6 +540,7 @@ Definition wf_a (a : av) : bool :=
         && (negb (c =? 25)%Z || (a_f_id a && negb (a_fz a)))
         && (negb (c =? 79)%Z || (a_idz a && negb (a_fz a)))
         && (negb (c =? 0)%Z || (negb (a_fz a) && negb (a_gz a) && (a_f_id a || a_idz a)))
+        && ((c =? 0)%Z || a_gz a)
     | PSyncSent, INone => negb (a_idz a) && negb (a_genz a) && ck_ok (a_ck a)
     | PSyncSent, IS c => zmem c probe_codes && negb (a_idz a) && negb (a_genz a)
     | _, _ => false
